@@ -805,7 +805,8 @@ fn gen_skel_any(rng: &mut Rng, out: &mut dyn Write, n: usize) {
                 let t = g.rng.below(g.tb.len() as u64) as usize;
                 let structy = g.tb[t].structy;
                 let k = g.rng.below(4) as usize;
-                let members = (0..k).map(|_| g.extra_member(structy, t.min(7))).collect();
+                // no nested STRUCT members here: the class graph must stay acyclic
+                let members = (0..k).map(|_| g.extra_member(structy, 0)).collect();
                 let name = g.fresh("xp");
                 let old = g.tb[t].parent;
                 g.tb.push(HType { name, version: int_edge(g.rng), parent: old, members, structy });
@@ -815,7 +816,7 @@ fn gen_skel_any(rng: &mut Rng, out: &mut dyn Write, n: usize) {
             for _ in 0..g.rng.below(8) {
                 let t = g.rng.below(g.tb.len() as u64) as usize;
                 let structy = g.tb[t].structy;
-                let m = g.extra_member(structy, if structy { t.min(7) } else { usize::MAX });
+                let m = g.extra_member(structy, if structy { 0 } else { usize::MAX });
                 let at = g.rng.range(0, g.tb[t].members.len() as u64) as usize;
                 g.tb[t].members.insert(at, m);
             }
@@ -843,7 +844,7 @@ fn gen_skel_any(rng: &mut Rng, out: &mut dyn Write, n: usize) {
                 if g.rng.chance(1, 3) {
                     while all_members(&g.tb, t).len() % 8 != 0 {
                         let structy = g.tb[t].structy;
-                        let m = g.extra_member(structy, t.min(7));
+                        let m = g.extra_member(structy, if structy { 0 } else { usize::MAX });
                         let at = g.rng.range(0, g.tb[t].members.len() as u64) as usize;
                         g.tb[t].members.insert(at, m);
                     }
